@@ -6,4 +6,4 @@ From FG Require Import Dag Builder Sched.
 Extraction "model.ml"
   run_ops build fngraph_eq iter_order iter_rev_order map_order iter_insertion_order try_visit
   gi_from_graph gi_iter gi_iter_rev gi_ser gi_de gi_eqb fid empty_dag
-  mk_cfg init step poll settle run starts sinit sstep mk_scfg is_none with_edges.
+  mk_cfg init step poll settle run starts sinit sstep mk_scfg is_none with_edges init_carry.
